@@ -42,6 +42,7 @@ for t in $targets; do
     resegmenter) go test -c -vet=off -overlay="$OV" -o "$VERIF/bin/resegmenter.test" ./examples/resegmenter ;;
     encrypt) go test -c -vet=off -overlay="$OV" -o "$VERIF/bin/encrypt.test" ./cmd/mp4ff-encrypt ;;
     decrypt) go test -c -vet=off -overlay="$OV" -o "$VERIF/bin/decrypt.test" ./cmd/mp4ff-decrypt ;;
+    addsidx) go test -c -vet=off -overlay="$OV" -o "$VERIF/bin/addsidx.test" ./examples/add-sidx ;;
     combine) go test -c -vet=off -overlay="$OV" -o "$VERIF/bin/combine.test" ./examples/combine-segs ;;
     *) echo "unknown build target $t" >&2; exit 2 ;;
   esac
